@@ -71,6 +71,10 @@ class VLoop(asyncio.SelectorEventLoop):
                 when_ns = round(self._scheduled[0]._when * 1e9)
                 if when_ns > self._vnow_ns:
                     self._vnow_ns = when_ns
+            elif not self._stopping and any(k > self.step for k in self.at_step):
+                # idle, but something is planned for a later step (an injected interrupt, a late start):
+                # iterate idly until then instead of declaring the run over
+                self.call_soon(lambda: None)
             elif not self._stopping:
                 # nothing can ever happen again
                 self.stalled = True
